@@ -65,6 +65,9 @@ func valueOf(code string) any {
 	case code[0] == 'm':
 		n, _ := strconv.Atoi(code[1:])
 		return map[string]int{"v": n}
+	case code[0] == 'a': // a slice that already is a []any
+		n, _ := strconv.Atoi(code[1:])
+		return []any{n}
 	case code[0] == 'n': // a nested section: a map[string]any value (replaced as a whole by Set and Merge)
 		n, _ := strconv.Atoi(code[1:])
 		return map[string]any{"x" + strconv.Itoa(n%3): n}
@@ -88,6 +91,12 @@ func codeOf(v any) string {
 	case []int:
 		if len(x) == 1 {
 			return "l" + strconv.Itoa(x[0])
+		}
+	case []any:
+		if len(x) == 1 {
+			if n, ok := x[0].(int); ok {
+				return "a" + strconv.Itoa(n)
+			}
 		}
 	case map[string]int:
 		if len(x) == 1 {
@@ -204,6 +213,22 @@ func apply(s state, op *Op, snapArg state) (state, string) {
 		return s, "0"
 	case "getbool":
 		return s, strconv.FormatBool(s[op.Key] == "bt")
+	case "getslice", "getsliceor":
+		// a read: any slice value is handed out as []any, the stored value stays what it is
+		c := s[op.Key]
+		if c != "" && (c[0] == 'l' || c[0] == 'a') {
+			return s, "[" + c[1:] + "]"
+		}
+		if op.Kind == "getsliceor" {
+			return s, "D"
+		}
+		return s, "nil"
+	case "getmap":
+		c := s[op.Key]
+		if c != "" && c[0] == 'n' {
+			return s, c
+		}
+		return s, "nil"
 	}
 	panic("unknown op " + op.Kind)
 }
@@ -316,6 +341,30 @@ func execOp(st *flyt.SharedStore, op *Op, snaps *[]*snapshot) (out string, snapA
 		return strconv.FormatFloat(st.GetFloat64(k), 'f', -1, 64), snapArg
 	case "getbool":
 		return strconv.FormatBool(st.GetBool(k)), snapArg
+	case "getslice", "getsliceor":
+		var sl []any
+		if op.Kind == "getslice" {
+			sl = st.GetSlice(k)
+		} else {
+			sl = st.GetSliceOr(k, []any{"D"})
+		}
+		switch {
+		case sl == nil:
+			return "nil", snapArg
+		case len(sl) == 1 && sl[0] == "D":
+			return "D", snapArg
+		case len(sl) == 1:
+			if n, ok := sl[0].(int); ok {
+				return "[" + strconv.Itoa(n) + "]", snapArg
+			}
+		}
+		return fmt.Sprintf("?%v", sl), snapArg
+	case "getmap":
+		m := st.GetMap(k)
+		if m == nil {
+			return "nil", snapArg
+		}
+		return codeOf(m), snapArg
 	default:
 		panic("unknown op " + op.Kind)
 	}
@@ -379,15 +428,29 @@ func mutateSnap(op *Op, snaps []*snapshot) {
 	sn.m[keyNames[op.Key]] = "POISON" + strconv.Itoa(op.ID)
 }
 
+func pick2(r *rand.Rand, a, b string) string {
+	if r.IntN(2) == 0 {
+		return a
+	}
+	return b
+}
+
 type genState struct {
 	r      *rand.Rand
 	nextID int
 	nkeys  int
+	slices bool // this scenario is heavy on slice values and the slice getter
 	nested bool // this scenario is heavy on nested-section values
 }
 
 func (g *genState) val() string {
 	g.nextID++
+	if g.slices && g.r.IntN(2) == 0 {
+		return pick2(g.r, "l", "a") + strconv.Itoa(g.nextID)
+	}
+	if g.r.IntN(25) == 0 {
+		return "a" + strconv.Itoa(g.nextID)
+	}
 	if g.nested && g.r.IntN(2) == 0 || g.r.IntN(20) == 0 {
 		return "n" + strconv.Itoa(g.nextID)
 	}
@@ -414,6 +477,9 @@ func (g *genState) val() string {
 func (g *genState) op(snapOps bool) Op {
 	r := g.r
 	key := r.IntN(g.nkeys)
+	if g.slices && r.IntN(5) == 0 {
+		return Op{Kind: pick2(r, "getslice", "getsliceor"), Key: key}
+	}
 	switch n := r.IntN(100); {
 	case n < 22:
 		return Op{Kind: "set", Key: key, Val: g.val()}
@@ -443,7 +509,10 @@ func (g *genState) op(snapOps bool) Op {
 	case n < 89:
 		return Op{Kind: "clear"}
 	case n < 95:
-		kinds := []string{"getstring", "getstringor", "getint", "getintor", "getfloat", "getbool"}
+		kinds := []string{"getstring", "getstringor", "getint", "getintor", "getfloat", "getbool", "getslice", "getsliceor", "getmap"}
+		if g.slices && r.IntN(2) == 0 {
+			kinds = []string{"getslice", "getsliceor"}
+		}
 		return Op{Kind: kinds[r.IntN(len(kinds))], Key: key}
 	default:
 		g.nextID++
@@ -463,7 +532,7 @@ func (g *genState) op(snapOps bool) Op {
 }
 
 func gen(prop, tier string, r *rand.Rand, idx int) any {
-	g := &genState{r: r, nested: r.IntN(5) == 0}
+	g := &genState{r: r, nested: r.IntN(5) == 0, slices: r.IntN(5) == 1}
 	sc := &Scn{}
 	if prop == "C14" && r.IntN(2) == 0 {
 		// sequential refinement: one client, long history, wide key space
